@@ -22,6 +22,22 @@ def c02_matchers():
     return {"C02-anchored-empty-quoted": anchored_empty_quoted}
 
 
+
+def pump_traces(ctx, cases, label, every, limits):
+    """Records the pump's step log (hook verif_hooks::pump_trace_*) for every `every`-th case document and validates the
+    traces against the actions of LiveEvents.tla (TR_LiveEvents). limits = (total, stack, per_anchor) or None for the defaults."""
+    trecs = ctx.path(f"{label}.traces.ndjson")
+    args = ["c02t", "--cases", cases, "--out", trecs, "--every", every]
+    consts = dict(MaxTotalReplayed=1000000, MaxStackDepth=64, MaxPerAnchor=1000000, NormalizeAnchoredEmptyQuoted=False)
+    if limits:
+        args += ["--total", limits[0], "--stack", limits[1], "--per", limits[2]]
+        consts.update(MaxTotalReplayed=limits[0], MaxStackDepth=limits[1], MaxPerAnchor=limits[2])
+    st = run_vh(ctx, args)
+    ctx.notes[f"{label}_traces"] = dict(records=st["records"], steps=st["steps"], serve_steps=st["serve_steps"], error_traces=st["error_traces"])
+    ctx.evaluations += st["records"]
+    return run_tv(ctx, "TR_LiveEvents", trecs, label=label, constants=consts, invariants=["Count"], timeout=3000)
+
+
 def check_C02(ctx):
     q = ctx.quick()
     cases = ctx.path("cases.ndjson")
@@ -52,6 +68,8 @@ def check_C02(ctx):
     ctx.distinct_nontrivial += st["nontrivial"]
     ctx.samples += st["samples"]
     mism = run_tv(ctx, "TV_LiveEvents", recs)
+    # action-level binding: step logs of the instrumented pump replayed through the actions of LiveEvents.tla
+    mism += pump_traces(ctx, allcases, "TR_LiveEvents", 10 if q else 2, None)
     classify_mismatches(ctx, mism, recs, c02_matchers(), "from_str(aliased document) differs from the alias-free expansion required by YamlModel!RequiredTree")
     return finish(ctx, "model_checking",
                   "cases: every well-formed document up to MaxEv events over 2 anchor names (re-definition allowed) "
@@ -398,6 +416,13 @@ def check_C08(ctx):
     ctx.distinct_nontrivial += st["nontrivial"]
     ctx.samples += st["samples"]
     mism = run_tv(ctx, "TV_Bounds", recs, timeout=3000)
+    # action-level binding under tightened limits: the pump's step log must follow LiveEvents.tla up to and including the step that trips
+    cases = ctx.path("cases.ndjson")
+    run_mc(ctx, "MC_LiveEvents", dict(base, MaxEv=6, MaxTotalReplayed=1000000, MaxPerAnchor=1000000, MaxStackDepth=64), ["EmitCase"], workers=8,
+           timeout=3000, cases_out=cases, label="MC_LiveEvents_cases")
+    for (t, s, p) in [(2, 64, 1000000), (1000000, 64, 1), (3, 64, 2)] if q else [(2, 64, 1000000), (1000000, 64, 1), (3, 64, 2), (1, 64, 1), (5, 64, 3)]:
+        tm = pump_traces(ctx, cases, f"TR_LiveEvents_t{t}p{p}", 3 if q else 1, (t, s, p))
+        mism += [(m[0], dict(m[1], verdict="trace") if isinstance(m[1], dict) else m[1], m[2], m[3]) for m in tm]
     matchers = {"C08-nested-anchor-recording": lambda rec, d: isinstance(d, dict) and d.get("verdict") == "heap" and d.get("rec", {}).get("family") == "nested"}
     classify_mismatches(ctx, [(m[0], m[1], m[2], m[3]) for m in mism], None, matchers,
                         "alias limit / delivered node count / peak heap outside Bounds.tla (FirstTrip, DeliveredNodes, K*(input+events))")
